@@ -60,6 +60,16 @@ def _w_ids(args):
         return {"error": repr(e)[:200]}
 
 
+def _w_io(args):
+    graph, sd = args
+    from . import cfgio
+
+    try:
+        return cfgio.observe_io(graph, sd)
+    except Exception as e:
+        return None, [f"exception: {e!r}"[:300]]
+
+
 def pool():
     return ProcessPoolExecutor(max_workers=16, initializer=_w_init)
 
@@ -70,6 +80,33 @@ def graphs(n, sd, sizes=(1, 2, 3, 3, 4)):
 
     rng = random.Random(sd)
     return [R.rand_graph(rng, rng.choice(sizes)) for _ in range(n)]
+
+
+def pre_heavy_graphs(n, sd):
+    """Graphs where lightweight tasks are attached as pre-tasks at several nodes, in overlapping sequences"""
+    rng = random.Random(sd)
+    out = []
+    for _ in range(n):
+        nk, nl = rng.choice([1, 2, 3]), rng.choice([2, 3])
+        ids = [str(i + 1) for i in range(nk + nl)]
+        ks, lws = ids[:nk], ids[nk:]
+        g = {}
+        for i in ks:
+            g[i] = {"cls": "K2", "vals": {"a": ["int", int(i)], "c": ["cfg", rng.choice(ks)] if rng.random() < 0.6 else ["none"], "v": ["int", 4]},
+                    "meta": "none", "pre": [], "init": [], "task": "0"}
+        for i in lws:
+            g[i] = {"cls": "LW", "vals": {"k": ["int", int(i)], "c": ["none"]}, "meta": "none", "pre": [], "init": [], "task": "0"}
+        g[ks[0]]["vals"]["c"] = ["cfg", ks[-1]] if nk > 1 else ["none"]
+        for i in ks:
+            k = rng.choice([1, 2, 3])
+            seq = []
+            for _ in range(k):
+                x = rng.choice(lws)
+                if x not in seq:
+                    seq.append(x)
+            g[i]["pre"] = seq
+        out.append(g)
+    return out
 
 
 def edit(g, rng):
@@ -197,7 +234,60 @@ def model_check(rep, prop, module, cfgname, mine, note=""):
     return res
 
 
-MISMATCH_FIELDS = ["stream", "pretasks", "loops", "sealed", "generated"]
+MISMATCH_FIELDS = ["stream", "pretasks", "loops", "sealed", "generated", "definitions", "instances"]
+IO_PREFIX = {"C12": ("params.json:", "params.json (written", "state_dict:", "state_dict (written", "save/load:", "definition list", "exception"),
+             "C13": ("instance()", "params.json as instance:", "exception")}
+
+
+def io_conformance(rep, prop, n, sd):
+    """C12 / C13: write + load every way, instantiate both ways; TLC validates the definition order and the
+    instantiated sets, the isomorphism / call counts are compared with the abstract graph"""
+    gs = graphs(n - n // 3, sd + 21) + pre_heavy_graphs(n // 3, sd + 22)
+    with pool() as ex:
+        obs = list(ex.map(_w_io, [(g, sd * 13 + i) for i, g in enumerate(gs)], chunksize=10))
+    cases, index = [], []
+    for i, (case, problems) in enumerate(obs):
+        rep.cov["evaluations"] += 1
+        for p in problems:
+            if p.startswith(IO_PREFIX[prop]):
+                key = p.split(":")[0] + "/" + " ".join(w for w in p.split(":", 1)[-1].split() if not w.rstrip(".,").isdigit())[:60]
+                rep.violation(f"{prop}/io/{key}", f"graph #{i}: {p}", {"graph": gs[i], "seed": sd * 13 + i, "io": True})
+        if case is not None:
+            cases.append(case)
+            index.append(i)
+    for k, res in run_batch("XpmConfig_Enc.tla", "XpmConfig_Enc.cfg", cases):
+        rep.cov["states"] += res.distinct
+        rep.cov["transitions"] += max(res.generated, res.distinct)
+        if res.error:
+            rep.machinery_failure("TLC failed on a graph batch: " + str(res.error)[:300])
+        for m in res.printed("MISMATCH"):
+            i = index[k + m[1] - 1]
+            fields = {MISMATCH_FIELDS[j] for j in range(7) if m[2 + j]}
+            want = {"C12": "definitions", "C13": "instances"}[prop]
+            if want in fields:
+                rep.violation(f"{prop}/conformance/{want}", f"graph #{i}: {want} disagree with XpmConfig ({m[2:]})", {"graph": gs[i], "seed": sd * 13 + i, "io": True})
+    rep.cov["traces_validated_against_impl"] += len(cases)
+    rep.cov["distinct_nontrivial"] += sum(1 for c in cases if len(c["g"]) > 1 and any(len(v) > 1 for v in c["defs"].values()))
+    if cases:
+        rep.sample({"graph": cases[0]["g"], "definition_order": cases[0]["defs"], "instances": cases[0]["inst"]})
+
+
+def echo_runs(rep, n, sd):
+    from . import cfgecho
+
+    gs = [g for g in graphs(n * 5, sd + 5) if all(x["cls"] in ("K", "K2", "K2Old", "V", "G") and not x["pre"] and x["task"] == "0"
+                                                   for x in g.values()) and _acyclic(g)][:n]
+    out, err = cfgecho.run([(g, "1") for g in gs])
+    if err:
+        rep.machinery_failure("echo runs: " + err)
+        return
+    for i, (g, problems) in enumerate(zip(gs, out)):
+        rep.cov["evaluations"] += 1
+        for p in problems:
+            rep.violation(f"C12/echo/{p.split(':')[-1][:50]}", f"echo graph #{i}: {p}", {"graph": g})
+    rep.cov["echo_task_runs"] = len(gs)
+
+
 FIELDS_OF = {
     "C01": {"stream", "pretasks"}, "C02": {"stream"}, "C03": {"stream"}, "C20": {"stream"},
     "C14": {"sealed"}, "C17": {"generated"},
@@ -234,7 +324,7 @@ def conformance_random(rep, prop, n, sd):
         for m in res.printed("MISMATCH"):
             t = m[1]
             i = index[k + t - 1]
-            fields = {MISMATCH_FIELDS[j] for j in range(5) if m[2 + j]}
+            fields = {MISMATCH_FIELDS[j] for j in range(7) if m[2 + j]}
             if fields & FIELDS_OF[prop]:
                 rep.violation(f"{prop}/conformance/{'+'.join(sorted(fields & FIELDS_OF[prop]))}",
                               f"random graph #{i}: the real objects disagree with XpmConfig on {sorted(fields)} (nodes {m[2:]})",
@@ -409,6 +499,12 @@ def run(prop, tier, replay=None):
             print("replay:", d)
             if d:
                 rep.violation(f"{prop}/replay", str(d), payload)
+        elif payload.get("io"):
+            case, diffs = _w_io((payload["graph"], payload.get("seed", 0)))
+            print("problems:", diffs)
+            for d in diffs:
+                if d.startswith(IO_PREFIX.get(prop, ())):
+                    rep.violation(f"{prop}/replay", d, payload)
         elif "graph" in payload:
             case, diffs = _w_observe((payload["graph"], payload.get("seed", 0), True))
             print("python-side differences:", diffs)
@@ -455,6 +551,13 @@ def run(prop, tier, replay=None):
         model_check(rep, prop, "MC_ConfigGen.tla", "MC_ConfigGen.cfg", None, "generated paths inside / distinct over the structure family")
         conformance_random(rep, prop, nq * 2, sd)
         resubmit_paths(rep, 60 if tier == "quick" else 600, sd)
+    elif prop == "C12":
+        model_check(rep, prop, "MC_ConfigGen.tla", "MC_ConfigDefs.cfg", None, "definition list: every reachable object once, children first")
+        io_conformance(rep, prop, nq, sd)
+        echo_runs(rep, 20 if tier == "quick" else 200, sd)
+    elif prop == "C13":
+        model_check(rep, prop, "MC_ConfigGen.tla", "MC_ConfigDefs.cfg", None, "instantiated set = reachable without task links")
+        io_conformance(rep, prop, nq, sd)
     elif prop == "C20":
         model_check(rep, prop, "MC_ConfigSig.tla", "MC_ConfigSig_small.cfg" if tier == "quick" else "MC_ConfigSig.cfg", {"DeprecatedSame"},
                     "a deprecated class hashes like its replacement at any position")
